@@ -5,7 +5,8 @@
 cd "$(dirname "$0")/.."
 declare -A EXTRA=( [C17-m2]="C11" [C01-m1]="C01 C09" [C06-m2]="C06 C13" [C13-m1]="C13 C06" [C07-m1]="C07 C10" [C14-m2]="C14 C01" [C08-m2]="C08 C02" [C05-m1]="C05 C15"
   [C07-m5]="C09" [C08-m5]="C16" [C09-m5]="C10" [C19-m5]="C16" [C19-m6]="C04" [C16-m6]="C15" [C08-m3]="C16" [C01-m4]="C14" [C05-m3]="C06 C05" [C05-m4]="C01 C05" [C01-m3]="C01 C09" [C01-m8]="C14" [C05-m7]="C13" [C05-m8]="C08" [C06-m8]="C13" [C11-m8]="C04" [C15-m8]="C11" [C16-m7]="C15"
-  [C02-m7]="C15" [C02-m8]="C15" [C06-m9]="C13" [C06-m10]="C20" [C14-m8]="C01 C06" [C09-m8]="C07 C10" [C01-m10]="C10" [C11-m10]="C17" [C05-m9]="C05 C10" [C15-m9]="C15 C16" [C15-m10]="C15 C16" [C08-m7]="C08 C16" )
+  [C02-m7]="C15" [C02-m8]="C15" [C06-m9]="C13" [C06-m10]="C20" [C14-m8]="C01 C06" [C09-m8]="C07 C10" [C01-m10]="C10" [C11-m10]="C17" [C05-m9]="C05 C10" [C15-m9]="C15 C16" [C15-m10]="C15 C16" [C08-m7]="C08 C16"
+  [C05-m12]="C15" [C17-m9]="C04" [C17-m10]="C11" [C15-m11]="C15 C16" [C06-m11]="C06 C01" )
 K="${2:-0}"; NSH="${3:-1}"; i=0
 PRE="${1:-}"; [ -z "$PRE" ] && PRE="C,own"
 for d in $(for pre in $(echo "$PRE" | tr "," " "); do ls -d seeded/${pre}*/; done | sort -u); do
